@@ -20,7 +20,7 @@ open Scrapli Scrapli.Factory Scrapli.Factory.Heap Scrapli.Gen.Factory
   level    <key>:<pattern>:<name>:<previous_priv>:<deescalate>:<escalate>:<0|1>:<escalate_prompt>:<nc>  nc = <hex>/… | .
   tables   <hexname>~<level>,… or .~<nc>
   ops      c:<i>:<hexcls> | r:<i>:<hexname> | e:<i>:<hexlvl>:<hexpattern|!>:<hex not_contains item to append|!>
-           | fa:<i>:<hex item to append> | fc:<i>      joined by ";" or "."  (e / fa are compiled against the
+           | fa:<i>:<hex item to append> | fc:<i> | d:<i>:<hexlvl> | n:<i>:<level>      joined by ";" or "."  (e / fa are compiled against the
            model's current state into editLevel / editFailedWhen)
 -/
 
@@ -146,6 +146,8 @@ inductive DOp
   | e (i : Nat) (lvl : String) (pattern : Option String) (ncAdd : Option String)
   | fa (i : Nat) (s : String)
   | fc (i : Nat)
+  | d (i : Nat) (lvl : String)
+  | n (i : Nat) (lvl : String) (lv : Level)
 
 def optHex (s : String) : Option (Option String) := if s == "!" then some none else (unhexStr s).map some
 
@@ -158,6 +160,11 @@ def decOp (s : String) : Option DOp :=
     pure (.e i l p n)
   | ["fa", i, x] => do let i ← i.toNat?; let x ← unhexStr x; pure (.fa i x)
   | ["fc", i] => do let i ← i.toNat?; pure (.fc i)
+  | ["d", i, l] => do let i ← i.toNat?; let l ← unhexStr l; pure (.d i l)
+  | "n" :: i :: rest => do
+    let i ← i.toNat?
+    let (k, lv) ← decLevel (":".intercalate rest)
+    pure (.n i k lv)
   | _ => none
 
 def compileOp (s : St) : DOp → Option Op
@@ -169,6 +176,8 @@ def compileOp (s : St) : DOp → Option Op
     | none => none
   | .fa i x => ((view s).conns.lookup i).map (fun c => .editFailedWhen i (c.v.fwc ++ [x]))
   | .fc i => some (.editFailedWhen i [])
+  | .d i l => some (.delLevel i l)
+  | .n i l lv => some (.addLevel i l lv)
 
 def runD (classes : List ClassInfo) (s : St) (ops : List DOp) : St :=
   ops.foldl (fun s o => match compileOp s o with | some op => step classes s op | none => s) s
